@@ -3,6 +3,7 @@ CONSTANTS N = 4
   Start = 2
   MaxCrashes = 2
   Variant = "asis"
+  RepairAtStart = TRUE
   AllowMissing = TRUE
 INVARIANTS TypeOK NeverFails VersionLast Completion Idempotent
 PROPERTY FinMonotone
